@@ -15,7 +15,7 @@ def run(ctx):
     prog, W = ctx.prog, ctx.whole
     report = Report("C07", ctx, "R1 by call-graph reachability and by the emit sequence of each write_compressed_to: the names the property "
                     "lists as compressible reach Name::compress_append, the names whose RFCs forbid compression never do; R2 recorded "
-                    "offsets are <= 0x3FFF (C03-R3) and the pointer is `offset | 0xC000` written big-endian; R3 the offset stored for a "
+                    "offsets are <= 0x3FFF (C03-R3) and the pointer is `offset | 0xC000` written big-endian; R5 a suffix is left out of the table only when its offset is >= 0x4000; R3 the offset stored for a "
                     "suffix is the writer position captured before any byte of that label is written, keyed by the suffix starting at "
                     "that label; R4 offsets are relative to the first byte of the message.")
     rows = load_tsv("compression.tsv")
@@ -94,6 +94,44 @@ def run(ctx):
         else:
             viol(report, "C07-R2", "Name::compress_append", "offset-bound", "recorded offsets are not bounded by 16383: a pointer to a later "
                  "offset is truncated to a different target", "%s:%d" % (ca.file, ca.line))
+        # ---- R5 used where allowed: a suffix is left out of the table only when its offset does not fit 14 bits
+        import mirutil as mu2
+        domc = mu2.dominators(ca)
+        ibi = ins[0]["bi"]
+        sw = None
+        for D in sorted(domc[ibi], key=lambda x: -len(domc[x])):
+            t = ca.blocks[D]["term"]
+            if D != ibi and t["t"] == "switch":
+                succs = [tg for _, tg in t["arms"]] + [t["otherwise"]]
+                taken = [x for x in succs if x in domc[ibi]]
+                skipped = [x for x in succs if x not in domc[ibi]]
+                # only a branch on a comparison is a bound test (the `?` of stream_position and the Occupied / Vacant dispatch
+                # branch on discriminants)
+                dl = mu2.op_local(t["discr"])
+                dd = mu2.single_def(mu2.defs_of(ca), dl) if dl is not None else None
+                if not (dd is not None and dd[1] != "term" and dd[2].get("k") == "bin" and dd[2].get("op") in ("Lt", "Le", "Gt", "Ge", "Eq", "Ne")):
+                    continue
+                if taken and skipped:
+                    sw = (D, skipped)
+                    break
+        report.count()
+        if sw is not None and wide is not None:
+            okskip = True
+            nskip = 0
+            for T in sw[1]:
+                for n in [n for n in aca.entry if n[0] == T]:
+                    nskip += 1
+                    if not any(c is not None and entails(aca.entry[n].facts, aca.iv, Lin.const(0x4000) - c, aca.depth) for c in (val, wide)):
+                        okskip = False
+            # the guard may also be the Occupied/Vacant dispatch itself (no bound test at all): then R2 decides
+            disc = ca.blocks[sw[0]]["term"]["discr"]
+            if okskip and nskip:
+                report.nontriv("skip only beyond 14 bits")
+                report.sample({"rule": "R5", "entailed": "a suffix is not recorded only if its offset >= 0x4000"})
+            elif nskip:
+                viol(report, "C07-R5", "Name::compress_append", "under-recording", "a name suffix can be left out of the compression table although "
+                     "its offset (%s) fits a 14-bit pointer: later occurrences are written in full where compression is allowed "
+                     "(the skip branch does not imply offset >= 0x4000)" % (wide,), "%s:%d" % (ca.file, ca.line))
         # ---- R3 record-before-write: the recorded value is the writer position at the start of this label
         lps, irr, dom = loops.natural_loops(ca)
         okr = False
